@@ -102,14 +102,20 @@ Fixpoint find_le_from (idx : N) (prev : N) (rest : list N) : option N :=
 Definition find_line_ending (buf : list N) : option N :=
   match buf with [] => None | b0 :: r => find_le_from 1 b0 r end.
 
-Inductive loop_end := LDone | LErr | LBlocked | LFuel.
-(* while !has_line_ending(buf) { let bytes = stream.read(..)?; if bytes == 0 { return Err(UnexpectedEof) }
+(* const MAX_AUTH_LINE_LEN: usize = 16 * 1024 *)
+Definition MAX_AUTH_LINE_LEN : N := 16384.
+
+Inductive loop_end := LDone | LErr | LTooLong | LBlocked | LFuel.
+(* while !has_line_ending(buf) {
+     if buf.len() > MAX_AUTH_LINE_LEN { return Err(InvalidData) }
+     let bytes = stream.read(..)?; if bytes == 0 { return Err(UnexpectedEof) }
      buf.extend_from_slice(&tmpbuf[..bytes]) } *)
 Fixpoint read_loop (fuel : nat) (s : sock) (buf : list N) : loop_end * sock * list N :=
   match fuel with
   | O => (LFuel, s, buf)
   | S f =>
       if has_line_ending buf then (LDone, s, buf)
+      else if MAX_AUTH_LINE_LEN <? len buf then (LTooLong, s, buf)
       else match sock_read s with
            | (RData b, s') => read_loop f s' (buf ++ b)
            | (REof, s') => (LErr, s', buf)
@@ -134,6 +140,7 @@ Definition read_message (fuel : nat) (s : sock) (buf : list N) : rm_result * soc
           if utf8_valid line then (RmLine line, s') else (RmErr, s')
       end
   | (LErr, s', _) => (RmErr, s')
+  | (LTooLong, s', _) => (RmErr, s')
   | (LBlocked, s', _) => (RmBlocked, s')
   | (LFuel, s', _) => (RmFuel, s')
   end.
